@@ -338,9 +338,19 @@ func genPlan(seed uint64, idx int) *Plan {
 	// config lists
 	nc := 1 + r.IntN(3)
 	var configs [][]byte
-	for i := 0; i < nc; i++ {
-		configs = append(configs, core.Bytes(r, 1+r.IntN(90)))
+	sameLen := 0
+	if r.IntN(3) == 0 {
+		// a key rotation: the lists differ in their octets, not in their length
+		sameLen = 1 + r.IntN(90)
 	}
+	for i := 0; i < nc; i++ {
+		n := 1 + r.IntN(90)
+		if sameLen > 0 {
+			n = sameLen
+		}
+		configs = append(configs, core.Bytes(r, n))
+	}
+	p.ReuseBuf = r.IntN(2) == 0
 
 	// zones
 	nz := []int{1, 1, 1, 2, 2, 3}[r.IntN(6)]
